@@ -1,4 +1,4 @@
-HOOK_COMMITS = ["032f8f9", "22db371"]
+HOOK_COMMITS = ["032f8f9", "22db371", "28945e3"]
 NOTES = ("All checks: bin/check <id>. Known findings: known_findings.jsonl. Lean obligations per property: obligations.json. "
          "The repository carries 'fix:' commits for findings F1, F2 (see DESIGN.md section 7).")
 NOT_APPLICABLE = {}
